@@ -367,6 +367,16 @@ def linecol_rules(fns, what, bad):
                 '(they must be computed from the text of the call)')
             return 1
     nv = linebreak_vocabulary(fns, what, bad)
+    mp = fns.get('_map_index_to_line_and_column')
+    if mp is not None and not nv:
+        bulk = [n for n in ast.walk(mp) if isinstance(n, ast.Call) and isinstance(n.func, ast.Attribute)
+                and n.func.attr in ('extend', 'insert', '__iadd__')] + \
+               [n for n in ast.walk(mp) if isinstance(n, ast.AugAssign)
+                and isinstance(n.value, (ast.List, ast.BinOp, ast.ListComp))]
+        if bulk:
+            raise AnalysisError(f'{what}: _map_index_to_line_and_column fills its tables in bulk '
+                                f'(`{ast.unparse(bulk[0])[:60]}`) instead of one entry per character '
+                                f'(representation not covered)')
     # each recognised way of writing the map is tried with a finding list of its own: findings count
     # only for the shape that was actually recognised
     first = None
@@ -677,6 +687,14 @@ def finalize_rules(fns, what, bad):
                     return nob + 1
         raise AnalysisError(f'{what}: _finalize_parse_info does not unpack the two position tables')
     tvals = set(tables.values())
+    # a conversion loop over a local generator (which walks and filters lazily) is not a shape these rules read
+    local_gens = {n.name for n in fn.body if isinstance(n, ast.FunctionDef)
+                  and any(isinstance(x, (ast.Yield, ast.YieldFrom)) for x in ast.walk(n))}
+    for lpn in ast.walk(fn):
+        if isinstance(lpn, ast.For) and isinstance(lpn.iter, ast.Call) and isinstance(lpn.iter.func, ast.Name) \
+                and lpn.iter.func.id in local_gens:
+            raise AnalysisError(f'{what}: _finalize_parse_info iterates the local generator {lpn.iter.func.id}() '
+                                f'(representation not covered)')
     # exits
     saw_raise = saw_ret = False
     for p in paths:
